@@ -157,3 +157,48 @@ class EomMonitor(Monitor):
     def end(self, r: Runner) -> None:
         if self.rich and not self.tainted:
             self.ctx.mark_nontrivial(("c15", self.ctx.case_idx))
+        if not self.tainted:
+            self._check_open_blocks(r)
+
+    def _check_open_blocks(self, r: Runner) -> None:
+        """A channel left in EOM mode idles at the off-detuning of its *latest* setpoint for as long as the sequence
+        (or the requested extension) lasts."""
+        import warnings
+
+        from vmon.snap import arr, snapshot
+        ctx = self.ctx
+        seq = r.seq
+        snap = snapshot(seq)
+        if not snap["flags"]["building"]:
+            return
+        open_ = {n: c for n, c in snap["chans"].items() if c["slots"] and eom_now(c)}
+        if not open_ or (seq.is_register_mappable() and any(c["detmap"] is not None for c in snap["chans"].values())):
+            return
+        from pulser.sampler import sample
+
+        T = max(chan_end(c) for c in snap["chans"].values() if c["slots"])
+        ext = T + 40
+        try:
+            with warnings.catch_warnings():
+                warnings.simplefilter("ignore")
+                sm = sample(seq, extended_duration=ext)
+        except Exception:
+            ctx.count("open_block_sampling_refused")
+            return
+        for n, c in open_.items():
+            off = c["eom"][-1][4]
+            end = chan_end(c)
+            det = arr(sm.channel_samples[n].det)
+            amp = arr(sm.channel_samples[n].amp)
+            ctx.count("open_blocks_checked")
+            if len({round(b[4], 9) for b in c["eom"]}) > 1:
+                ctx.count("open_blocks_after_setpoint_change")
+            if len(det) != ext:
+                ctx.violation("open-block", f"{n}: extended samples have length {len(det)}, requested {ext}", "open-block-length")
+                continue
+            tail, atail = det[end:], amp[end:]
+            if np.any(atail != 0) or np.any(np.abs(tail - off) > 1e-9 * (1 + abs(off))):
+                ctx.violation("open-block", f"{n}: left in EOM mode at {end} ns; beyond it the detuning is {np.unique(tail)[:3]} "
+                              f"(amplitude {np.unique(atail)[:2]}), the latest setpoint's off-detuning is {off} "
+                              f"(blocks: {[round(b[4], 6) for b in c['eom']]})", "open-block-tail")
+
